@@ -527,3 +527,444 @@ def abl_roundtrip_counts(h):
     # no record at all is, on the wire, the request for all ACs (data is just 0xFF 0x11)
     roundtrip_plain(h, ABL + ":AcAbilityEncoder", ABL + ":AcAbilityDecoder", msg, sub_header(SUB_ABILITY), SUB_ABILITY,
                     expect=h.new(ABL + ":AcAbilityRequest", ac_number="ALL") if n == 0 else None)
+
+
+def check_ability_record(h, rec, b, tag=""):
+    """Vendor reading (4.e.i, Byte3.. of one AC) of the record bytes b[0..25] against the decoded AcAbility.
+    b[24], b[25] (Byte27/28) are only meaningful when the following length b[1] is 24."""
+    fl = b[1]
+    h.oblige(tag + "AC number = Byte3", h.attr(rec, "ac_number") == b[0])
+    name = h.utf8(h.attr(rec, "ac_name"))
+    ln = len(name)
+    h.oblige(tag + "AC name = Byte5-20 up to the first 0 ('If less than 16 bytes, end with 0')",
+             And(ln <= AC_NAME_BYTES, *[name[i] == b[2 + i] for i in range(min(ln, AC_NAME_BYTES))],
+                 *[name[i] != 0 for i in range(ln)], True if ln >= AC_NAME_BYTES else b[2 + ln] == 0))
+    h.oblige(tag + "start group = Byte21", h.attr(rec, "start_group") == b[18])
+    h.oblige(tag + "group count = Byte22", h.attr(rec, "group_count") == b[19])
+    modes = h.attr(rec, "ac_mode_support")
+    for member, i in ABILITY_MODE_BIT.items():
+        v = h.method(modes, "get", h.member(X2C + ":AcModeControl", member))
+        h.oblige(tag + f"{member.lower()} mode supported = Byte23 bit{i + 1}", And(v.ok, h.eq(v.value, bit(b[20], i)) if v.ok else False))
+    fans = h.attr(rec, "fan_speed_support")
+    for member, i in ABILITY_FAN_BIT.items():
+        v = h.method(fans, "get", h.member(X2C + ":AcFanSpeedControl", member))
+        h.oblige(tag + f"fan speed {member.lower()} supported = Byte24 bit{i + 1}", And(v.ok, h.eq(v.value, bit(b[21], i)) if v.ok else False))
+    h.oblige(tag + "minimum set point = Byte25", h.attr(rec, "min_set_point") == b[22])
+    h.oblige(tag + "maximum set point = Byte26", h.attr(rec, "max_set_point") == b[23])
+    groups = h.attr(rec, "groups")
+    if h.is_none(groups):
+        # 'If there is no byte27/28, all groups will be displayed': absent is the only faithful value
+        h.oblige(tag + "group display absent only when the record has no Byte27/28 (following length < 24)", fl < ABILITY_FOLLOWING_NEW)
+    else:
+        h.oblige(tag + "group display present only when the record has Byte27/28 (following length >= 24)", fl >= ABILITY_FOLLOWING_NEW)
+        # Byte27 bit1..8 = Group1..8, Byte28 bit1..8 = Group9..16, i.e. bit g of Byte27 + 256 * Byte28 is group
+        # number g (lemma at4.lemma.bitmap-bytes proves that the two readings are the same)
+        e = b[24] + 256 * b[25]
+        # one obligation for the 16 rows of the table: it is discharged row by row, each row against the path
+        # condition only (16 separate obligations would pile 16 div/mod facts into the later queries)
+        h.oblige(tag + "group g (vendor Group g+1) displayed = Byte27 bit g+1 (g < 8) / Byte28 bit g-7 (g >= 8)",
+                 And(*[h.eq(h.contains(groups, g), bit(e, g)) for g in range(16)]))
+
+
+@oset("at4.lemma.bitmap-bytes", ["C05"], [], kind="lemma")
+def lemma_bitmap_bytes(h):
+    """Bit g of the little-endian 16-bit value Byte27 + 256 * Byte28 is bit (g mod 8) of Byte27 (g < 8) or of
+    Byte28 (g >= 8): the form in which check_ability_record states the vendor's group display table."""
+    lo, hi = h.int("byte27", 0, 255), h.int("byte28", 0, 255)
+    h.oblige("bit g of byte27 + 256 * byte28 = Byte27 bit g+1 (g < 8) / Byte28 bit g-7 (g >= 8), for g = 0..15",
+             And(*[h.eq(bit(lo + 256 * hi, g), bit(lo if g < 8 else hi, g % 8)) for g in range(16)]))
+
+
+def _install_ability_loop(h, buf, mlen):
+    """Loop contract for `while offset < header.message_length` in AcAbilityDecoder.decode.  The cursor at the
+    head of iteration k is OFF(k) with OFF(0) = 0 and OFF(k+1) = OFF(k) + 2 + (following length byte of record k)
+    - the stride the *document* defines ('count of following bytes belong to the ability of this AC'), not the
+    one the code computes; N is the first k with OFF(k) >= message_length (strides are >= 2, so N exists)."""
+    import z3
+    from pyvc import sym
+    from pyvc.sym import SInt
+    from pyvc.loops import StateLoop, SpecList
+    from pyvc.values import ABytes
+
+    OFF = z3.Function("abl_off", z3.IntSort(), z3.IntSort())
+    N = SInt(z3.Int(sym.fresh_name("abl_records")))
+    h.path.inputs["xFF11-loop:records"] = N
+
+    def off(k):
+        return SInt(OFF(sym.int_t(k)))
+
+    def n_of(it, iterable, entry, env):
+        if entry["offset"] != 0 or entry["ac_abilities"] != []:
+            raise Exception("loop entry state does not match the contract pattern")
+        return N
+
+    def define(it, k, entry):
+        if k == "init":
+            it.path.assume(off(0) == 0, "definition: OFF(0) = 0")
+        elif k is None:
+            it.path.assume(And(N >= 0, off(N) >= mlen, off(N) >= 0), "definition: N is the first k with OFF(k) >= message_length")
+        else:
+            fl = buf.at(off(k) + 1)
+            it.path.assume(And(off(k) >= 0, off(k) < mlen), "definition: OFF(k) < message_length for k < N")
+            it.path.assume(off(k + 1) == off(k) + 2 + fl, "definition: OFF(k+1) = OFF(k) + 2 + following length of record k")
+
+    def at(it, k, entry):
+        return {"offset": off(k), "ac_abilities": SpecList("xFF11", k)}
+
+    def check(it, k, entry, after):
+        lst = after["ac_abilities"]
+        ok = isinstance(lst, SpecList) and len(lst.appended) == 1
+        h.oblige("xFF11-loop/exactly one record appended per iteration", ok, kind="loop-preserve")
+        if not ok:
+            return
+        cur = ABytes(buf.arr, buf.off + off(k), buf.ln - off(k), buf.name)
+        b = [cur.at(i) for i in range(26)]
+        fl = b[1]
+        known = Or(fl == ABILITY_FOLLOWING_OLD, fl == ABILITY_FOLLOWING_NEW)
+        h.oblige("xFF11-loop/following length 22 or 24: cursor advances by 2 + following length (24 / 26 bytes)",
+                 Implies(known, after["offset"] == off(k) + 2 + fl), kind="loop-preserve")
+        # C05 'record strides announced by the console are honoured', C17 'records longer than the known layout
+        # are decoded from their known prefix' (the body did not raise when we get here)
+        h.oblige("xFF11-loop/a record longer than a known layout (following length 23 or > 24) is decoded from its known prefix: cursor advances by the announced 2 + following length",
+                 Implies(Or(fl == 23, fl > ABILITY_FOLLOWING_NEW), after["offset"] == off(k) + 2 + fl), kind="loop-preserve")
+        h.oblige("xFF11-loop/a following length that cannot hold the known layout (< 22) is rejected", fl >= ABILITY_FOLLOWING_OLD, kind="loop-preserve")
+        check_ability_record(h, lst.appended[0], b, "record k: ")
+
+    h.it.loop_hooks[(ABL + ":AcAbilityDecoder.decode", 0)] = StateLoop("xFF11-loop", ["offset", "ac_abilities"], n_of, at, check, define=define)
+    return N, off
+
+
+@oset("at4.xFF11.decode-vendor-reading", ["C05", "C17"], ABL_FNS[2:3] + ABL_FNS[6:],
+      assumptions=["ghost cursor function OFF(k) is defined by the document's stride (2 + following length); N exists because strides are >= 2"])
+def abl_decode(h):
+    """Arbitrary data (after the 0xFF 0x11 id) of arbitrary length and record count: loop contract on the real
+    `while offset < message_length` loop, one arbitrary iteration executed on the real loop body."""
+    buf = h.abytes("data")
+    mlen = h.int("message_length", 0, 65535)
+    if h.symbolic:
+        N, off = _install_ability_loop(h, buf, mlen)
+    r = h.method(h.new(ABL + ":AcAbilityDecoder"), "decode", buf, at4_subheader(h, SUB_ABILITY, mlen))
+    h.oblige("returns or rejects", only_rejects(h, r))
+    if not r.ok:
+        return
+    m = h.attr(r.value, "message")
+    if h.isinstance(m, ABL + ":AcAbilityRequest"):
+        who = h.attr(m, "ac_number")
+        if isinstance(who, str):
+            h.oblige("request for all ACs <=> no data after the id", And(who == "ALL", mlen == 0))
+        else:
+            h.oblige("request for one AC <=> exactly one data byte", mlen == 1)
+            h.assume(h.length(buf) >= 1)
+            h.oblige("requested AC = that byte", who == h.split_at(buf, 1)[0][0])
+        return
+    h.oblige("an ability message has at least one record (length >= 2)", mlen >= 2)
+    recs = h.attr(m, "ac_abilities")
+    if h.symbolic:
+        from pyvc.loops import SpecList
+        h.oblige("decoded list is exactly the N records the announced strides define",
+                 And(isinstance(recs, SpecList), h.eq(recs.n, N) if isinstance(recs, SpecList) else False))
+        h.oblige("accepted only if the records tile the announced length exactly", off(N) == mlen)
+    else:
+        recs = h.elems(recs)
+        data = list(buf)
+        o = 0
+        k = 0
+        while o < mlen and k < len(recs) and o + 24 <= len(data):
+            b = data[o:o + 26] + [0, 0]
+            known = b[1] in (ABILITY_FOLLOWING_OLD, ABILITY_FOLLOWING_NEW)
+            check_ability_record(h, recs[k], b, "record k: ")
+            nxt_code = o + 24 + (2 if b[1] == 24 else 0)
+            h.oblige("xFF11-loop/following length 22 or 24: cursor advances by 2 + following length (24 / 26 bytes)",
+                     (not known) or nxt_code == o + 2 + b[1])
+            h.oblige("xFF11-loop/a record longer than a known layout (following length 23 or > 24) is decoded from its known prefix: cursor advances by the announced 2 + following length",
+                     not (b[1] == 23 or b[1] > 24) or nxt_code == o + 2 + b[1])
+            h.oblige("xFF11-loop/a following length that cannot hold the known layout (< 22) is rejected", b[1] >= ABILITY_FOLLOWING_OLD)
+            o += 2 + b[1]
+            k += 1
+        h.oblige("decoded list is exactly the N records the announced strides define", k == len(recs) and o >= mlen)
+        h.oblige("accepted only if the records tile the announced length exactly", o == mlen)
+    h.oblige("remaining = what follows the announced length", h.eq(h.attr(r.value, "remaining"), h.slice(buf, mlen)))
+    h.cover("ability message decoded")
+
+
+# ================================ 0xFF12 group names (4.e.iii) ===================================
+GRP_FNS = [GRP + ":GroupNamesEncoder.size", GRP + ":GroupNamesEncoder.encode", GRP + ":GroupNamesDecoder.decode",
+           "pyairtouch.comms.encoding:encode_c_string", "pyairtouch.comms.encoding:decode_c_string"]
+
+
+def gen_group_names(h, name_lengths):
+    """{group number: name}: pairwise distinct group numbers over the whole byte range (the document's are 0-15),
+    names of the given UTF-8 byte lengths (<= 8, no NUL: a C string; encode_c_string would truncate a longer one)."""
+    nums = [h.int(f"g{i}_number", 0, 255) for i in range(len(name_lengths))]
+    for i in range(len(nums)):
+        for j in range(i):
+            h.assume(nums[i] != nums[j], "keys of a mapping are pairwise distinct")
+    return {nums[i]: h.string(f"g{i}_name", name_lengths[i]) for i in range(len(nums))}
+
+
+@oset("at4.xFF12.roundtrip.request", ["C03"], GRP_FNS[:3])
+def grp_roundtrip_request(h):
+    """'data 0xFF 0x12 [0-15]': all groups or one group."""
+    which = h.choice("request", ["ALL", "one"])
+    msg = h.new(GRP + ":GroupNamesRequest", group_number="ALL" if which == "ALL" else h.int("group_number", 0, 255))
+    out = roundtrip_plain(h, GRP + ":GroupNamesEncoder", GRP + ":GroupNamesDecoder", msg, sub_header(SUB_NAMES), SUB_NAMES)
+    if out is not None:
+        items = h.items(out)
+        h.oblige("request data after the id: nothing for all groups, the group number byte for one",
+                 len(items) == 0 if which == "ALL" else And(len(items) == 1, items[0] == h.attr(msg, "group_number") if len(items) == 1 else False))
+
+
+@oset("at4.xFF12.roundtrip.one-record", ["C03"], GRP_FNS)
+def grp_roundtrip_one(h):
+    """One group, any number, every name length 0..8 bytes incl. multi-byte UTF-8."""
+    n = h.choice("name_bytes", list(range(GROUP_NAME_BYTES + 1)))
+    msg = h.new(GRP + ":GroupNamesMessage", gen_group_names(h, [n]))
+    out = roundtrip_plain(h, GRP + ":GroupNamesEncoder", GRP + ":GroupNamesDecoder", msg, sub_header(SUB_NAMES), SUB_NAMES)
+    if out is not None:
+        h.oblige("a record is 9 bytes", h.length(out) == 9)
+
+
+@oset("at4.xFF12.roundtrip.counts-0-16", ["C03"], GRP_FNS)
+def grp_roundtrip_counts(h):
+    """0..16 groups with pairwise distinct symbolic numbers; the name length of slot i is fixed to i mod 9 bytes
+    (every length occurs; every length with every content is covered by the one-record set)."""
+    n = h.choice("count", list(range(0, 17)))
+    msg = h.new(GRP + ":GroupNamesMessage", gen_group_names(h, [i % (GROUP_NAME_BYTES + 1) for i in range(n)]))
+    # no group at all is, on the wire, the request for all groups (data is just 0xFF 0x12)
+    roundtrip_plain(h, GRP + ":GroupNamesEncoder", GRP + ":GroupNamesDecoder", msg, sub_header(SUB_NAMES), SUB_NAMES,
+                    expect=h.new(GRP + ":GroupNamesRequest", group_number="ALL") if n == 0 else None)
+
+
+def check_group_name_store(h, key, value, b, tag=""):
+    """Vendor reading of one 9-byte record b: Byte3 group number, Byte4-11 name, 'end with 0'."""
+    h.oblige(tag + "group number = Byte3", key == b[0])
+    name = h.utf8(value)
+    ln = len(name)
+    h.oblige(tag + "group name = Byte4-11 up to the first 0",
+             And(ln <= GROUP_NAME_BYTES, *[name[i] == b[1 + i] for i in range(min(ln, GROUP_NAME_BYTES))],
+                 *[name[i] != 0 for i in range(ln)], True if ln >= GROUP_NAME_BYTES else b[1 + ln] == 0))
+
+
+def _install_group_names_loop(h, mlen):
+    """Loop contract for `for _ in range(message_length // 9)`: at iteration k the cursor is the entry buffer
+    advanced by 9k and the mapping is the result of the first k stores (SpecDict); the real body, run for an
+    arbitrary k, must perform exactly one store - the vendor reading of the 9 bytes at the cursor - and advance
+    the cursor by 9."""
+    from pyvc.loops import StateLoop, SpecDict
+    from pyvc.values import ABytes
+    from pyvc import sym as S
+
+    def n_of(it, iterable, entry, env):
+        return mlen // 9
+
+    def at(it, k, entry):
+        b0 = entry["buffer"]
+        if not isinstance(b0, ABytes) or entry["group_names"] != {}:
+            raise Exception("loop entry state does not match the contract pattern")
+        return {"buffer": ABytes(b0.arr, b0.off + 9 * k, b0.ln - 9 * k, b0.name), "group_names": SpecDict("xFF12", k)}
+
+    def check(it, k, entry, after):
+        b0, nb, d = entry["buffer"], after["buffer"], after["group_names"]
+        ok = isinstance(nb, ABytes) and nb.same_base(b0) and isinstance(d, SpecDict) and len(d.stores) == 1
+        h.oblige("xFF12-loop/exactly one store per record and the cursor is a view of the same buffer", ok, kind="loop-preserve")
+        if not ok:
+            return
+        h.oblige("xFF12-loop/cursor advances by the 9-byte record size",
+                 And(S.eq(nb.off, b0.off + 9 * (k + 1)), S.eq(nb.ln, b0.ln - 9 * (k + 1))), kind="loop-preserve")
+        cur = ABytes(b0.arr, b0.off + 9 * k, b0.ln - 9 * k, b0.name)
+        check_group_name_store(h, d.stores[0][0], d.stores[0][1], [cur.at(i) for i in range(9)], "record k: ")
+
+    h.it.loop_hooks[(GRP + ":GroupNamesDecoder.decode", 0)] = StateLoop("xFF12-loop", ["buffer", "group_names"], n_of, at, check)
+
+
+@oset("at4.xFF12.decode-vendor-reading", ["C05", "C17"], [GRP + ":GroupNamesDecoder.decode", "pyairtouch.comms.encoding:decode_c_string"])
+def grp_decode(h):
+    """Arbitrary data (after the 0xFF 0x12 id), arbitrary length and record count (loop contract).  The decoded
+    mapping is the result of storing, in wire order, name under group number for every 9-byte record; the
+    document is silent about a group number that occurs twice (the later record wins, accepted)."""
+    buf = h.abytes("data")
+    mlen = h.int("message_length", 0, 65535)
+    # the decoder slices (a short buffer would be read as a truncated record, not rejected), so it relies on its
+    # caller: socket._read_one_message reads exactly header.message_length bytes and the 0x1F wrapper passes
+    # data[2:] with message_length - 2 (at4.x1F.decode-parametric)
+    h.assume(h.length(buf) >= mlen, "the receive path hands a sub-decoder at least the announced number of bytes")
+    if h.symbolic:
+        _install_group_names_loop(h, mlen)
+    r = h.method(h.new(GRP + ":GroupNamesDecoder"), "decode", buf, at4_subheader(h, SUB_NAMES, mlen))
+    h.oblige("returns or rejects", only_rejects(h, r))
+    if not r.ok:
+        return
+    m = h.attr(r.value, "message")
+    if h.isinstance(m, GRP + ":GroupNamesRequest"):
+        who = h.attr(m, "group_number")
+        if isinstance(who, str):
+            h.oblige("request for all groups <=> no data after the id", And(who == "ALL", mlen == 0))
+        else:
+            h.oblige("request for one group <=> exactly one data byte", mlen == 1)
+            h.assume(h.length(buf) >= 1)
+            h.oblige("requested group = that byte", who == h.split_at(buf, 1)[0][0])
+        return
+    h.oblige("a names message has length a non-zero multiple of 9", And(mlen % 9 == 0, mlen > 0))
+    names = h.attr(m, "group_names")
+    if h.symbolic:
+        from pyvc.loops import SpecDict
+        h.oblige("decoded mapping is exactly one store per 9 bytes",
+                 And(isinstance(names, SpecDict), names.n == mlen // 9 if isinstance(names, SpecDict) else False,
+                     len(names.stores) == 0 if isinstance(names, SpecDict) else False))
+        h.oblige("remaining = what follows the announced length", h.length(h.attr(r.value, "remaining")) == h.length(buf) - mlen)
+    else:
+        want = {}
+        data = list(buf)
+        for k in range(mlen // 9):
+            b = data[9 * k:9 * k + 9]
+            raw = bytes(b[1:]).split(b"\0", 1)[0]
+            want[b[0]] = raw.decode("utf-8")
+        h.oblige("decoded mapping is exactly one store per 9 bytes", dict(names) == want)
+        for key, value in names.items():
+            k = max(i for i in range(mlen // 9) if data[9 * i] == key)
+            check_group_name_store(h, key, value, data[9 * k:9 * k + 9], "record k: ")
+        h.oblige("remaining = what follows the announced length", h.length(h.attr(r.value, "remaining")) == h.length(buf) - mlen)
+    h.cover("group names decoded")
+
+
+# ================================ 0xFF20 quick timer (repo-derived oracle) ======================
+# Not in the vendor document.  Oracle: module docstring of x1FFF20_quick_timer.py ("turning an AC on/off a set
+# number of hours/minutes in the future", "the resulting timer will be modulo 24 hours") and the vectors of
+# tests/at4/comms/test_x1FFF20_quick_timer.py: data = [ac number, 0 off-timer / 1 on-timer, hours, minutes],
+# e.g. (ac 1, OFF, 2 h 3 min) -> 01 00 02 03 and (ac 1, ON, 248 h 59 min) -> 01 01 08 3b.
+QUICK_TIMER_TYPE_CODE = {"OFF_TIMER": 0, "ON_TIMER": 1}
+QTM_ASSUME = ["repo-derived oracle: the quick timer message is not in the vendor document (reverse engineered by the package author)",
+              "floats are modelled as exact reals: timedelta.total_seconds() of a whole number of minutes below 2**53 s is exact"]
+QTM_FNS = [QTM + ":QuickTimerEncoder.size", QTM + ":QuickTimerEncoder.encode", QTM + ":QuickTimerEncoder._encode_duration",
+           QTM + ":QuickTimerEncoder._encode_timer_type", QTM + ":QuickTimerDecoder.decode",
+           QTM + ":QuickTimerDecoder._decode_timer_type", QTM + ":QuickTimerDecoder._decode_duration"]
+
+
+@oset("at4.xFF20.roundtrip", ["C03"], QTM_FNS, assumptions=QTM_ASSUME)
+def qtm_roundtrip(h):
+    """Repo-derived oracle.  Domain: what the wire can carry without normalisation - a whole number of minutes
+    below 24 h ('Resolution is to the nearest minute', hours are sent modulo 24), AC number one byte."""
+    minutes = h.int("duration_minutes", 0, 24 * 60 - 1)
+    msg = h.new(QTM + ":QuickTimerMessage", ac_number=h.int("ac_number", 0, 255),
+                timer_type=h.enum("timer_type", QTM + ":TimerType"), duration=h.new("datetime:timedelta", minutes=minutes))
+    roundtrip_plain(h, QTM + ":QuickTimerEncoder", QTM + ":QuickTimerDecoder", msg, sub_header(SUB_QUICK_TIMER), SUB_QUICK_TIMER)
+
+
+@oset("at4.xFF20.encode-meaning", ["C04"], QTM_FNS[:4], assumptions=QTM_ASSUME)
+def qtm_encode(h):
+    """Repo-derived oracle.  Any duration that is a whole number of minutes (up to ~19 years, far beyond the 255 h
+    the docstring discusses): byte1 AC number, byte2 timer type code, byte3 hours modulo 24, byte4 minutes.
+    (Durations with a seconds part: the field docstring says 'nearest minute', the encoder truncates; the
+    two agree on whole minutes, which is the domain stated here.)"""
+    total = h.int("duration_minutes", 0, 10_000_000)
+    msg = h.new(QTM + ":QuickTimerMessage", ac_number=h.int("ac_number", 0, 255),
+                timer_type=h.enum("timer_type", QTM + ":TimerType"), duration=h.new("datetime:timedelta", minutes=total))
+    enc = h.new(QTM + ":QuickTimerEncoder")
+    sz = h.method(enc, "size", msg)
+    r = h.method(enc, "encode", at4_subheader(h, SUB_QUICK_TIMER, 4), msg)
+    h.oblige("size and encode do not raise", And(sz.ok, r.ok))
+    if not (sz.ok and r.ok):
+        return
+    b = h.items(r.value)
+    h.oblige("4 bytes of data, as announced by size()", And(len(b) == 4, h.eq(sz.value, 4)))
+    if len(b) != 4:
+        return
+    h.oblige("byte1 = AC number", b[0] == h.attr(msg, "ac_number"))
+    h.oblige("byte2 = timer type (0 off-timer, 1 on-timer)",
+             b[1] == h.enum_code(h.attr(msg, "timer_type"), QTM + ":TimerType", QUICK_TIMER_TYPE_CODE))
+    h.oblige("byte3 = whole hours modulo 24", b[2] == (total // 60) % 24)
+    h.oblige("byte4 = remaining minutes", b[3] == total % 60)
+    h.cover("quick timer encoded")
+
+
+@oset("at4.xFF20.decode-reading", ["C05", "C17"], QTM_FNS[4:], assumptions=QTM_ASSUME[:1])
+def qtm_decode(h):
+    """Repo-derived oracle.  Arbitrary data of arbitrary length: fewer than 4 bytes or an unknown timer type code
+    are rejected, never read as another timer."""
+    buf = h.abytes("data")
+    r = h.method(h.new(QTM + ":QuickTimerDecoder"), "decode", buf, at4_subheader(h, SUB_QUICK_TIMER, h.int("message_length", 0, 65535)))
+    h.oblige("returns or rejects", only_rejects(h, r))
+    if not r.ok:
+        return
+    h.oblige("accepted only with 4 data bytes", h.length(buf) >= 4)
+    h.assume(h.length(buf) >= 4)
+    b, rest = h.split_at(buf, 4)
+    m = h.attr(r.value, "message")
+    h.oblige("AC number = byte1", h.attr(m, "ac_number") == b[0])
+    h.oblige("timer type = byte2 (0 off-timer, 1 on-timer), any other code rejected",
+             h.enum_code(h.attr(m, "timer_type"), QTM + ":TimerType", QUICK_TIMER_TYPE_CODE) == b[1])
+    h.oblige("duration = byte3 hours + byte4 minutes",
+             h.eq(h.attr(m, "duration"), h.new("datetime:timedelta", minutes=b[2] * 60 + b[3])))
+    h.oblige("remaining = what follows the 4 bytes", h.eq(h.attr(r.value, "remaining"), rest))
+    h.cover("quick timer decoded")
+
+
+# ================================ 0xFF30 console version (4.e.iv) ================================
+VER_FNS = [VER + ":ConsoleVersionEncoder.size", VER + ":ConsoleVersionEncoder.encode", VER + ":ConsoleVersionDecoder.decode"]
+VER_STR_BOUND = 6       # bytes per version string in the round trip ('1.3.3' is 5)
+VER_PAYLOAD_BOUND = 9   # data bytes after the id in the decoder reading
+
+
+@oset("at4.xFF30.roundtrip.request", ["C03"], VER_FNS)
+def ver_roundtrip_request(h):
+    """'data 0xFF 0x30': no further data."""
+    out = roundtrip_plain(h, VER + ":ConsoleVersionEncoder", VER + ":ConsoleVersionDecoder", h.new(VER + ":ConsoleVersionRequest"),
+                          sub_header(SUB_VERSION), SUB_VERSION)
+    if out is not None:
+        h.oblige("no data after the id", h.length(out) == 0)
+
+
+@oset("at4.xFF30.roundtrip.message", ["C03"], VER_FNS,
+      bounded=f"1..2 version strings of 0..{VER_STR_BOUND} UTF-8 bytes each (the length byte allows 255 in total)")
+def ver_roundtrip_message(h):
+    """One or two consoles ('Two consoles separated by |'); a version string is any UTF-8 text without the
+    separator byte 0x7C (multi-byte sequences never contain 0x7C, so that is 'without the | character')."""
+    count = h.choice("consoles", [1, 2])
+    versions = []
+    for i in range(count):
+        n = h.choice(f"v{i}_bytes", list(range(VER_STR_BOUND + 1)))
+        versions.append(h.string(f"v{i}", n, no_nul=False, exclude_bytes=(VERSION_SEPARATOR,)))
+    msg = h.new(VER + ":ConsoleVersionMessage", update_available=h.bool("update_available"), versions=versions)
+    out = roundtrip_plain(h, VER + ":ConsoleVersionEncoder", VER + ":ConsoleVersionDecoder", msg, sub_header(SUB_VERSION), SUB_VERSION)
+    if out is not None:
+        b = h.items(out)
+        h.oblige("Byte3 update sign (0 latest, other: new version available), Byte4 version string length",
+                 And(len(b) >= 2, ite(h.attr(msg, "update_available"), b[0] != 0, b[0] == 0) if len(b) >= 2 else False,
+                     b[1] == len(b) - 2 if len(b) >= 2 else False))
+
+
+@oset("at4.xFF30.decode-vendor-reading", ["C05", "C17"], VER_FNS[2:],
+      bounded=f"data of every concrete length 0..{VER_PAYLOAD_BOUND} bytes after the id (version text <= {VER_PAYLOAD_BOUND - 2} bytes)")
+def ver_decode(h):
+    """Arbitrary data of every length up to the bound.  Byte3 update sign, Byte4 version string length, Byte5..
+    versions separated by '|'."""
+    n = h.choice("data_bytes", list(range(VER_PAYLOAD_BOUND + 1)))
+    buf = h.bytes("data", n)
+    mlen = h.int("message_length", 0, 65535)
+    r = h.method(h.new(VER + ":ConsoleVersionDecoder"), "decode", buf, at4_subheader(h, SUB_VERSION, mlen))
+    h.oblige("returns or rejects", only_rejects(h, r))
+    if not r.ok:
+        return
+    m = h.attr(r.value, "message")
+    if h.isinstance(m, VER + ":ConsoleVersionRequest"):
+        h.oblige("request <=> no data after the id", mlen == 0)
+        return
+    h.oblige("a version message has data", mlen != 0)
+    h.oblige("accepted only with the update sign and the length byte present", n >= 2)
+    if n < 2:
+        return
+    b = h.items(buf)
+    h.oblige("update available <=> Byte3 is not 0", h.eq(h.attr(m, "update_available"), b[0] != 0))
+    vs = h.elems(h.attr(m, "versions"))
+    joined = []
+    for i, v in enumerate(vs):
+        u = h.utf8(v)
+        h.oblige("no version string contains the separator", And(*[x != VERSION_SEPARATOR for x in u]))
+        joined += ([VERSION_SEPARATOR] if i else []) + u
+    text = b[2:]
+    k = len(joined)
+    h.oblige("versions joined by '|' = the bytes after the length byte, as many as there are of the announced length",
+             And(k <= len(text), *[joined[i] == text[i] for i in range(min(k, len(text)))], Or(b[1] == k, And(b[1] > k, k == len(text)))))
+    h.oblige("a version string length that exceeds the data is rejected, not truncated silently", 2 + b[1] <= n)
+    h.oblige("remaining = what follows the announced string", h.eq(h.attr(r.value, "remaining"), h.mkbytes(text[k:])))
+    h.cover("console version decoded")
